@@ -389,6 +389,7 @@ def run(ctx):
     layer_whole_template(ctx, 30 if ctx.quick else 500)
     layer_load_across_directories(ctx, 10 if ctx.quick else 150)
     layer_names_and_fallbacks(ctx, 30 if ctx.quick else 400)
+    layer_handed_on_slots(ctx, 25 if ctx.quick else 300)
 
 
 
@@ -725,6 +726,50 @@ def layer_switch_across_boundaries(ctx, n):
             ctx.violation(key, 'shape %s, k=%d\n  LIB %r\n  CALLER %r\n  with METAL %r\n  inlined %r' % (shape, k, lib, caller, got, want),
                           {'kind': 'metal', 'lib': lib, 'caller': '<x>' + caller + '</x>', 'inlined': '<x>' + inl + '</x>',
                            'env': {'k': k}, 'placement': 'other'})
+
+
+def layer_handed_on_slots(ctx, n):
+    """A macro M that uses a macro N and hands N's slot on to its own callers (a define-slot inside its fill-slot):
+    every execution of that use - each iteration of a loop, each of several uses, a direct define-slot of the same
+    name beside them - shows the caller's filler when there is one and M's default otherwise."""
+    from chameleon import PageTemplate
+    rng = ctx.rng
+    for case in range(n):
+        parts, wants = [], []
+        k = rng.randint(0, 4)
+        for j in range(rng.randint(1, 4)):
+            kind = rng.choice(['loop', 'use', 'direct'])
+            if kind == 'loop':
+                parts.append('<tal:r repeat="r rs"><u metal:use-macro="template.macros[\'N\']"><f metal:fill-slot="inner">'
+                             '<i metal:define-slot="outer">L%d ${r}</i></f></u></tal:r>' % j)
+                wants.append(('loop', j))
+            elif kind == 'use':
+                parts.append('<u metal:use-macro="template.macros[\'N\']"><f metal:fill-slot="inner"><i metal:define-slot="outer">U%d</i></f></u>' % j)
+                wants.append(('use', j))
+            else:
+                parts.append('<i metal:define-slot="outer">D%d</i>' % j)
+                wants.append(('direct', j))
+        lib_src = ('<x><n metal:define-macro="N">[N:<i metal:define-slot="inner">n-default</i>]</n>'
+                   '<m metal:define-macro="M">{%s}</m></x>' % '|'.join(parts))
+        filled = rng.random() < .7
+        caller = '<c metal:use-macro="lib.macros[\'M\']">%s</c>' % ('<g metal:fill-slot="outer">FILLED ${r|0}</g>' if filled else 'unused')
+        rs = list(range(1, k + 1))
+
+        def one(kind, j, r):
+            if kind == 'direct':
+                return '<g>FILLED 0</g>' if filled else '<i>D%d</i>' % j
+            inner = ('<g>FILLED %d</g>' % r) if filled else ('<i>L%d %d</i>' % (j, r) if kind == 'loop' else '<i>U%d</i>' % j)
+            return '<n>[N:<f>%s</f>]</n>' % inner
+        want = '<m>{%s}</m>' % '|'.join(''.join(one(kd, j, r) for r in rs) if kd == 'loop' else one(kd, j, 0) for kd, j in wants)
+        try:
+            got = PageTemplate(caller)(lib=PageTemplate(lib_src), rs=rs)
+        except Exception as e:
+            got = 'RAISED %s: %s' % (type(e).__name__, str(e).split('\n')[0][:100])
+        ctx.mon('handed-on-slots-compared')
+        ctx.case(key=('handed-on', tuple(kd for kd, j in wants), filled, min(k, 3)), nontrivial=filled)
+        if got != want:
+            ctx.violation('handed-on-slot-not-filled-at-every-execution', 'library %r\ncaller %r (loop of %d items)\n  rendered %r\n  expected %r'
+                          % (lib_src, caller, k, got, want), {'kind': 'handed-on', 'lib': lib_src, 'caller': caller, 'k': k})
 
 
 def replay(data):
